@@ -58,6 +58,14 @@ func init() {
 		add(map[string]interface{}{"in": []int{3, 3}, "k": []int{2, 2}, "M": 4, "bias": true})
 		add(map[string]interface{}{"in": []int{2, 3}, "k": []int{2, 2}, "M": 2, "N": 2, "bias": true})
 		add(map[string]interface{}{"nd": 1, "in": []int{4}, "k": []int{2}, "M": 3, "bias": true})
+		// a kernel larger than the unpadded input along one axis: it fits (or not) only through the pads of THAT axis
+		add(map[string]interface{}{"in": []int{2, 5}, "k": []int{3, 2}, "pads": []int{0, 0, 1, 0}})
+		add(map[string]interface{}{"in": []int{1, 4}, "k": []int{3, 2}, "pads": []int{0, 2, 0, 0}})
+		add(map[string]interface{}{"in": []int{1, 4}, "k": []int{3, 2}, "pads": []int{1, 0, 1, 0}})
+		add(map[string]interface{}{"in": []int{4, 1}, "k": []int{2, 3}, "pads": []int{0, 2, 0, 0}})
+		add(map[string]interface{}{"in": []int{4, 1}, "k": []int{2, 3}, "pads": []int{2, 0, 0, 0}})
+		add(map[string]interface{}{"in": []int{1, 4}, "k": []int{3, 2}, "auto_pad": "SAME_UPPER"})
+		add(map[string]interface{}{"in": []int{1, 4}, "k": []int{3, 2}, "auto_pad": "SAME_LOWER"})
 		// refused configurations
 		add(map[string]interface{}{"in": []int{3, 3}, "k": []int{2, 2}, "group": 2, "C": 2, "M": 2})
 		add(map[string]interface{}{"in": []int{3, 3}, "k": []int{2, 2}, "group": 1})
